@@ -1842,3 +1842,108 @@ def e_parafac_long(g):
 
 ENTRIES["parafac2_longrun"]["weight"] = 1
 ENTRIES["parafac_longrun"]["weight"] = 1
+
+
+# =============================================================== wrapper-class methods and constructors, remaining base helpers
+
+_WRAPPERS = ["CPTensor", "TuckerTensor", "TTTensor", "TRTensor", "TTMatrix", "Parafac2Tensor"]
+_WMETHODS = ["construct", "to_tensor", "to_unfolded", "to_vec", "mode_dot", "normalize_like"]
+
+
+def e_wrapper(g, which):
+    """Methods of the factorised-tensor wrapper classes (they delegate to the module-level functions) and the
+    constructors themselves, which are handed the caller's factor containers."""
+    import tensorly as tl
+    from tensorly.cp_tensor import CPTensor
+    from tensorly.tucker_tensor import TuckerTensor
+    from tensorly.tt_tensor import TTTensor
+    from tensorly.tr_tensor import TRTensor
+    from tensorly.tt_matrix import TTMatrix
+    from tensorly.parafac2_tensor import Parafac2Tensor
+    from tensorly.random import random_parafac2
+
+    cls_name, method = which.split(".")
+    rs = g.rs()
+    g.notes["which"] = which
+    if cls_name == "CPTensor":
+        shape = g.shapeN()
+        raw = tuple(g.cp_init(shape, g.choice([2, 1]), allow_obj=False))
+        cls, nd = CPTensor, len(shape)
+    elif cls_name == "TuckerTensor":
+        shape = g.shape3()
+        raw = tuple(g.tucker_init(shape, [2, 2, 2])) if not isinstance(g, type(None)) else None
+        raw = (raw[0], raw[1]) if not isinstance(raw, TuckerTensor) else (raw.core, raw.factors)
+        cls, nd = TuckerTensor, 3
+    elif cls_name == "TTTensor":
+        raw = [g.arr((1, 3, 2), rs=rs, kinds=("c", "f")), g.arr((2, 4, 2), rs=rs, kinds=("c", "f")), g.arr((2, 2, 1), rs=rs, kinds=("c", "f"))]
+        cls, nd = TTTensor, 3
+    elif cls_name == "TRTensor":
+        raw = [g.arr((2, 3, 2), rs=rs, kinds=("c", "f")), g.arr((2, 4, 3), rs=rs, kinds=("c", "f")), g.arr((3, 2, 2), rs=rs, kinds=("c", "f"))]
+        cls, nd = TRTensor, 3
+    elif cls_name == "TTMatrix":
+        raw = [g.arr((1, 2, 3, 2), rs=rs, kinds=("c", "f")), g.arr((2, 3, 2, 1), rs=rs, kinds=("c", "f"))]
+        cls, nd = TTMatrix, 2
+    else:
+        p2 = random_parafac2(g.choice([[(4, 3)] * 3, [(4, 3), (3, 3), (5, 3)]]), 2, random_state=np.random.RandomState(3))
+        raw = (p2.weights, list(p2.factors), list(p2.projections))
+        cls, nd = Parafac2Tensor, 3
+    if cls_name in ("TTTensor", "TRTensor", "TTMatrix") and g.flag():
+        raw = tuple(raw)
+    if method == "construct":
+        if cls_name in ("TTTensor", "TTMatrix"):
+            return dict(fn=lambda factors: cls(factors, inplace=False), kwargs=dict(factors=raw))
+        return dict(fn=lambda factors: cls(factors), kwargs=dict(factors=raw))
+    obj = cls(raw)
+    if method == "to_tensor":
+        return dict(fn=lambda obj: obj.to_tensor(), kwargs=dict(obj=obj))
+    if method == "to_vec":
+        return dict(fn=lambda obj: obj.to_vec(), kwargs=dict(obj=obj))
+    if method == "to_unfolded":
+        return dict(fn=lambda obj, mode: obj.to_unfolded(mode), kwargs=dict(obj=obj, mode=g.int(0, nd - 1)))
+    if method == "mode_dot":
+        if cls_name not in ("CPTensor", "TuckerTensor"):
+            return dict(fn=lambda obj: obj.to_tensor(), kwargs=dict(obj=obj))
+        mode = g.int(0, nd - 1)
+        size = obj.shape[mode]
+        m = g.arr((size,), rs=rs) if g.flag(0.4) else g.arr((2, size), rs=rs)
+        return dict(fn=lambda obj, m, mode: obj.mode_dot(m, mode, copy=True), kwargs=dict(obj=obj, m=m, mode=mode))
+    # "normalize_like": non-mutating normalisations offered for the class
+    if cls_name == "CPTensor":
+        return dict(fn=lambda obj: tl.cp_normalize(obj), kwargs=dict(obj=obj))
+    if cls_name == "TuckerTensor":
+        from tensorly.tucker_tensor import tucker_normalize
+
+        return dict(fn=lambda obj: tucker_normalize(obj), kwargs=dict(obj=obj))
+    if cls_name == "Parafac2Tensor":
+        from tensorly.parafac2_tensor import parafac2_normalise
+
+        return dict(fn=lambda obj: parafac2_normalise(obj), kwargs=dict(obj=obj))
+    return dict(fn=lambda obj: (obj.shape, obj.rank, len(obj), obj[0]), kwargs=dict(obj=obj))
+
+
+split_entry("wrap", e_wrapper, [f"{c}.{m}" for c in _WRAPPERS for m in _WMETHODS], deterministic=True)
+
+
+def e_base2(g, which):
+    import tensorly.base as B
+
+    shape = g.shapeN()
+    n = int(np.prod(shape))
+    g.notes["which"] = which
+    if which == "vec_to_tensor":
+        return dict(fn=B.vec_to_tensor, kwargs=dict(vec=g.arr((n,), kinds=("c", "slice")), shape=list(shape) if g.flag() else tuple(shape)))
+    if which == "partial_fold":
+        full = (3,) + tuple(shape)
+        mode = g.int(0, len(shape) - 1)
+        unfolded = g.arr((3, shape[mode], n // shape[mode]))
+        return dict(fn=B.partial_fold, kwargs=dict(unfolded=unfolded, mode=mode, shape=list(full), skip_begin=1, skip_end=0))
+    if which == "partial_vec_to_tensor":
+        full = (3,) + tuple(shape)
+        return dict(fn=B.partial_vec_to_tensor, kwargs=dict(matrix=g.arr((3, n)), shape=list(full), skip_begin=1, skip_end=0))
+    if which == "partial_unfold_end":
+        full = tuple(shape) + (2,)
+        return dict(fn=B.partial_unfold, kwargs=dict(tensor=g.arr(full), mode=0, skip_begin=0, skip_end=1, ravel_tensors=g.flag()))
+    return dict(fn=B.matricize, kwargs=dict(tensor=g.arr(shape), row_modes=[len(shape) - 1, 0][: g.choice([1, 2])], column_modes=None))
+
+
+split_entry("base", e_base2, ["vec_to_tensor", "partial_fold", "partial_vec_to_tensor", "partial_unfold_end", "matricize_rows"], deterministic=True)
